@@ -11,8 +11,8 @@ INVS = ["Truthful", "NoInjectedAckLeaks", "InjectedIdsFresh", "CompletionExact",
 
 
 def _cfg(consts, invs=True, spec="MSpec", sample=1):
-    s = ("SPECIFICATION %s\nCONSTANTS MaxEp = %d MaxInj = %d MaxAcks = %d Tries = %d Interval = 3 Reorder = %d Depth = %d SampleOneIn = %d W = %d\n"
-         % (spec, consts["MaxEp"], consts["MaxInj"], consts["MaxAcks"], consts["Tries"], consts["Reorder"], consts["Depth"], sample,
+    s = ("SPECIFICATION %s\nCONSTANTS MinEp = %d MaxEp = %d MaxInj = %d MaxAcks = %d Tries = %d Interval = 3 Reorder = %d Depth = %d SampleOneIn = %d W = %d\n"
+         % (spec, consts.get("MinEp", 1), consts["MaxEp"], consts["MaxInj"], consts["MaxAcks"], consts["Tries"], consts["Reorder"], consts["Depth"], sample,
             consts.get("W", 0)))
     if invs:
         s += "".join("INVARIANT %s\n" % i for i in INVS)
@@ -129,7 +129,7 @@ def _norm_out(recs, sort):
     for r in recs:
         name = {"PacketAck": "pa", "StartPingCheck": "spc", "CompletePingCheck": "msg"}.get(r["name"], r["name"])
         res.append([r["dir"], r["id"], name, bool(r["rel"]), bool(r["resent"]), list(r["acks"]), list(r["pa"]),
-                    r.get("oldest", 0)])
+                    r.get("oldest", 0), bool(r.get("anyid", False))])
     return sorted(res) if sort else res
 
 
@@ -143,9 +143,9 @@ def _diff(act, obs, got):
         bad.append(("datagrams", exp, have))
     else:
         for e, h in zip(exp, have):
-            if e[1] == 0:     # packet ID left to the proxy
+            if e[8]:          # packet ID left to the proxy
                 h = list(h)
-                h[1] = 0
+                h[1], h[8] = e[1], True
             if e != h:
                 bad.append(("datagram", e, h))
     for r in got["out"]:
@@ -267,7 +267,7 @@ def _b1_sim(chk: Check, consts, label, num, sample):
     chk.sample({"binding": "B1 sampled behaviour " + label, "acts": [s["act"] for s in b][:9]})
 
 
-def _b1(chk: Check, consts, label):
+def _b1(chk: Check, consts, label, pairs=None):
     global _G, _WINDOW
     _WINDOW = consts.get("W") or None
     recs = common.export_records(chk, "ProxiedCircuit_MBT", _cfg(consts), label)
@@ -275,7 +275,7 @@ def _b1(chk: Check, consts, label):
     chk.cov["tlc_runs"][-1]["invariants"] = INVS
     g = Graph(recs)
     _G = g
-    ids = g.reachable_edges() + g.merge_pairs(12000 if chk.tier == 'quick' else 72000)
+    ids = g.reachable_edges() + g.merge_pairs(pairs or (12000 if chk.tier == 'quick' else 72000))
     results = common.parallel_map(_replay_chunk, common.chunked(ids, common.NCPU * 8))
     chk.count(len(ids))
     chk.cov["traces_validated_against_impl"] += len(ids)
@@ -297,17 +297,21 @@ def run(chk: Check):
                        "appended/PacketAck acks, forward/drop disposition, proxy injections, clock ticks) replayed through the real "
                        "InterceptingLLUDPProxyProtocol.handle_proxied_packet + ProxiedCircuit with emitted datagrams, future states and "
                        "message flags compared; non-trivial = edges carrying acks, drops, injections or ticks")
-    chk.assumptions += ["with a small tracker window (configs evict-*) the environment only sends/acknowledges IDs above the newest aged-out injection (C04's horizon)", "no packet-ID wrap-around",
+    chk.assumptions += ["with a small tracker window (configs evict-*) the environment only sends/acknowledges IDs above the newest aged-out injection (C04's horizon)", "no packet-ID wrap-around", "endpoint packet IDs start at 1 (viewer, simulator) or at 0 (hippolyzer's own client endpoint: configs from0-*)",
                         "a dropped standalone PacketAck may lose its Packets blocks (the property only claims piggy-backed acks of a dropped packet)",
                         "the packet ID of the PacketAck that carries a dropped packet's appended acks is the proxy's choice",
                         "virtual clock replaces datetime in hippolyzer.lib.base.message.circuit; resend_unacked is called after every tick"]
     if chk.tier == "quick":
         _b1(chk, dict(MaxEp=2, MaxInj=2, MaxAcks=2, Tries=10, Reorder=1, Depth=4), "exhaustive-d4")
+        _b1(chk, dict(MinEp=0, MaxEp=1, MaxInj=1, MaxAcks=1, Tries=10, Reorder=1, Depth=3), "from0-d3", pairs=2000)
         _b1_sim(chk, dict(MaxEp=3, MaxInj=3, MaxAcks=2, Tries=10, Reorder=1, Depth=9), "simulate-d9", 150, 12)
+        _b1_sim(chk, dict(MinEp=0, MaxEp=2, MaxInj=3, MaxAcks=2, Tries=10, Reorder=1, Depth=9), "simulate-from0-d9", 80, 12)
         _b1_sim(chk, dict(MaxEp=1, MaxInj=1, MaxAcks=1, Tries=10, Reorder=0, Depth=14), "budget-d14", 300, 3)
         _b1_sim(chk, dict(MaxEp=3, MaxInj=4, MaxAcks=1, Tries=10, Reorder=1, Depth=10, W=1), "evict-W1-d10", 150, 10)
     else:
         _b1(chk, dict(MaxEp=2, MaxInj=2, MaxAcks=2, Tries=10, Reorder=1, Depth=5), "exhaustive-d5")
+        _b1(chk, dict(MinEp=0, MaxEp=1, MaxInj=2, MaxAcks=2, Tries=10, Reorder=1, Depth=5), "from0-d5")
+        _b1_sim(chk, dict(MinEp=0, MaxEp=2, MaxInj=3, MaxAcks=2, Tries=10, Reorder=1, Depth=10), "simulate-from0-d10", 2500, 12)
         _b1_sim(chk, dict(MaxEp=3, MaxInj=3, MaxAcks=2, Tries=10, Reorder=1, Depth=10), "simulate-d10", 2500, 12)
         _b1_sim(chk, dict(MaxEp=1, MaxInj=1, MaxAcks=1, Tries=10, Reorder=0, Depth=16), "budget-d16", 5000, 3)
         _b1_sim(chk, dict(MaxEp=3, MaxInj=4, MaxAcks=1, Tries=10, Reorder=1, Depth=11, W=1), "evict-W1-d11", 2500, 10)
